@@ -80,7 +80,7 @@ def order_lit(order):
     return "[" + "; ".join(f"({i}%nat, {j}%nat)" for i, j in order) + "]"
 
 
-def structures(ctx, kinds=("corpus", "moved", "jitter", "thin"), big=False):
+def structures(ctx, kinds=("corpus", "moved", "jitter", "reversed", "thin"), big=False):
     """yield (name, kind, Structure3D) with grid-snapped coordinates"""
     rng = ctx.rng
     files = ["1DFU_1_M-N.cif", "6INQ.cif", "4WTI_1_T-P.cif", "1HMH_1_E.cif", "1ehz-assembly-1.cif"]
@@ -99,6 +99,9 @@ def structures(ctx, kinds=("corpus", "moved", "jitter", "thin"), big=False):
         if "jitter" in kinds:
             for sigma in ([0.1] if ctx.quick else [0.05, 0.15, 0.3]):
                 yield name, f"jitter{sigma}", geo.jittered(base, rng, sigma)
+        if "reversed" in kinds:
+            from rnapolis.tertiary import Structure3D
+            yield name, "reversed-order", Structure3D(list(reversed(base.residues)))
         if "thin" in kinds:
             drop_res = {i for i in range(len(base.residues)) if rng.random() < 0.15}
             drop_atoms = {"N7", "O2"} if rng.random() < 0.5 else {"C1'"}
